@@ -220,8 +220,23 @@ def check_simulate(P: str, circuit, cfg: SimConfig, ctx, max_leaves: int, qubit_
         g[1] = b.prob * b.rho if g[1] is None else g[1] + b.prob * b.rho
         g[2].append(b.psi)
     tol = cfg.tol()
+    init_snapshot = np.array(initial_state, copy=True) if isinstance(initial_state, np.ndarray) else None
+
+    def check_init_untouched(where: str) -> None:
+        # the caller owns the array it passed as initial_state; every leaf (and a user's second call)
+        # starts from the same object
+        if init_snapshot is not None and not np.array_equal(init_snapshot, initial_state):
+            raise Violation(f"{P}-INITIAL-STATE-MUTATED",
+                            f"[{cfg.describe()} {where}] the array passed as initial_state "
+                            f"(dtype {initial_state.dtype}) was modified by the simulator\n{circuit}")
 
     def leaf(prng: ScriptedPRNG):
+        try:
+            return leaf_inner(prng)
+        finally:
+            check_init_untouched("simulate")
+
+    def leaf_inner(prng: ScriptedPRNG):
         sim = cfg.make(prng)
         if not stepwise:
             res = sim.simulate(circuit, qubit_order=qubit_order, initial_state=initial_state)
